@@ -38,14 +38,15 @@ type simFile struct {
 
 // pintRun is everything a user can observe of one `pint` invocation.
 type pintRun struct {
-	Stderr string
-	JSON   string
-	Err    string
-	Stats  detsim.SchedStats
-	SimNs  int64
-	Leak   string
-	Live   bool
-	Reqs   int
+	Stderr   string
+	LogLines int
+	JSON     string
+	Err      string
+	Stats    detsim.SchedStats
+	SimNs    int64
+	Leak     string
+	Live     bool
+	Reqs     int
 }
 
 type simServer struct {
@@ -181,7 +182,19 @@ func runPint(t *testing.T, env simEnv, record bool) pintRun {
 	})
 	_ = errFile.Close()
 	b, _ := os.ReadFile(filepath.Join(dir, ".stderr"))
-	res.Stderr = string(b)
+	// stderr carries two things: the console report (what the property is about) and slog
+	// lines such as "Query returned an error", which are a log of events in the order they
+	// happened and therefore legitimately follow the schedule. Keep them apart.
+	var rep, logs []string
+	for _, l := range strings.Split(string(b), "\n") {
+		if strings.HasPrefix(l, "level=") {
+			logs = append(logs, l)
+		} else {
+			rep = append(rep, l)
+		}
+	}
+	res.Stderr = strings.Join(rep, "\n")
+	res.LogLines = len(logs)
 	if env.JSONOut != "" {
 		j, _ := os.ReadFile(filepath.Join(dir, env.JSONOut))
 		res.JSON = string(j)
